@@ -88,14 +88,22 @@ PROPS = {
     },
     "C18": {
         "parts": [
+            {"id": "C18N", "features": ("net",), "runs": {"quick": 60_000, "thorough": 2_000_000},
+             "probes": ["probe.ended_by_stop_all_lines_applied", "probe.prefix_consistency_checked", "probe.guest_ran_to_exit", "event.half_close",
+                        "event.stream_ended_inside_a_line", "event.short_reads_and_writes", "event.chunking_whole_script", "event.chunking_tiny", "event.chunking_random"]},
             {"id": "C18", "runs": {"quick": 150_000, "thorough": 4_000_000},
              "probes": ["event.batches_with_several_lines", "event.batches_delivered_while_paused", "probe.malformed_line_followed_by_lines_in_same_batch",
                         "probe.quiet_point_checks", "probe.ended_by_stop", "probe.ended_paused", "probe.ran_to_exit", "probe.wait_start"]},
         ],
         "rule": SIG_RULE + "C18/E1 runs: a script of 1-60 well-formed (u8 pokes to a sequence cell with increasing values and to scratch bytes, ioport pin levels, cmd:pause/start/stop) and malformed lines "
                 "(wrong field counts for every verb, unknown verbs, empty, non-hex, overflow, 10 kB fields, non-ASCII) cut into polling batches (all-in-one, one-per-poll, random) attached to seeded iterations incl. "
-                "iteration 0 under wait-for-start and iterations while paused; signature = sequence of (batch size, paused?, class of every line); non-trivial = at least one line delivered.",
+                "iteration 0 under wait-for-start and iterations while paused; signature = sequence of (batch size, paused?, class of every line); non-trivial = at least one line delivered. "
+                "C18N/E2 runs: one shuttle execution (random scheduler, own seed) per run of the real Socket::connect + send worker + receive worker + run loop against a controller writer/reader pair over an in-memory stream: "
+                "script of 1-24 lines written in seeded chunks (whole script, 1-7 bytes, random; cuts inside lines and UTF-8 sequences), seeded short reads/writes, endings stop / guest exit / half-close inside or between lines, guests printing "
+                "backslashes, newlines, spelled-out \\n and multi-byte text; signature = (iterations, sequence-cell samples, messages received) per execution.",
         "assumptions": [
+            "E2: lines are UTF-8 text; an unterminated last fragment may be applied as one whole line or not at all; when the guest exits by itself only prefix consistency of the applied lines is required; a different but reversible escaping is accepted",
+            "E2: shuttle's PCT scheduler is not used: its first (oldest-task-first) execution never leaves the polling loop of the paused run loop; schedules are not shrunk (scenario and scheduler seed are)",
             "eventual application: effects are compared with the reference interpreter only at quiet points (more polls since the last delivery than lines in the script + 4) and after run() returned, so an implementation handling one line per poll would pass",
             "cmd:stop is always the last line of a script (lines after a stop are moot)",
             "hex fields are plain hex digits (a leading + is not generated); u8 targets are scratch bytes no guest touches, so the final image must be the initial image plus exactly the poked bytes",
